@@ -915,7 +915,7 @@ impl<H: BuildHasher + Default + Clone + std::fmt::Debug> Ex<H> {
                 let (k, r) = (kind_of(tok(t, 1)), num::<usize>(tok(t, 2)));
                 let (lo, hi) = hint(tok(t, 3), tok(t, 4));
                 let l = triples(&t[5..]);
-                let it = HintIter { items: l.into_iter(), lo, hi };
+                let it = HintIter::new(l, lo, hi);
                 let v = match k {
                     Kind::Pq => Reg::Pq(it.collect::<PQ<H>>()),
                     Kind::Dpq => Reg::Dpq(it.collect::<DPQ<H>>()),
@@ -1222,7 +1222,7 @@ impl<H: BuildHasher + Default + Clone + std::fmt::Debug> Ex<H> {
                 let r: usize = num(tok(t, 1));
                 let (lo, hi) = hint(tok(t, 2), tok(t, 3));
                 let l = triples(&t[4..]);
-                let it = HintIter { items: l.into_iter(), lo, hi };
+                let it = HintIter::new(l, lo, hi);
                 on_q!(self.regs.get_mut(r), out, q => q.extend(it));
                 out.push_str("unit");
             }
